@@ -70,6 +70,8 @@ impl<T> BlockNode<T> {
         debug_assert!(id < BLOCK_SIZE);
         unsafe {
             let data = self.data.get_unchecked(id);
+            #[cfg(may_verif)]
+            crate::verif::point();
             data.value.get().write(MaybeUninit::new(v));
 
             std::sync::atomic::fence(Ordering::Release);
